@@ -145,7 +145,9 @@ pub fn gen_tail_expr(t: &mut Tape) -> Expr {
 }
 
 pub fn descendants(t: &mut Tape, p: &str, extra: &[String]) -> Vec<String> {
-    let mut names: Vec<String> = ["a", "b", "x", ".a", "é", "bc", "A"].iter().map(|s| s.to_string()).collect();
+    // (a component may contain any character but the separator: also a line feed, a regex
+    // special or an unpaired-looking bracket)
+    let mut names: Vec<String> = ["a", "b", "x", ".a", "é", "bc", "A", "a\nb", "\n", "a|b", "[", "字 "].iter().map(|s| s.to_string()).collect();
     names.extend(extra.iter().cloned());
     let mut out = Vec::new();
     for _ in 0..4 {
